@@ -288,12 +288,13 @@ def backoff_grid(n):
 
 def gen(ctx):
     rng = ctx.rng
-    full = ctx.thorough
+    deep = ctx.thorough
+    full = True
     kinds = ['single', 'batch', 'notification']
     k = 0
     for n in (0, 1, 2, 3, 4):
         grid = backoff_grid(n)
-        if n <= 2:
+        if n <= 2 or (deep and n == 3):
             scripts = list(itertools.product(_OUT, repeat=n + 2))
         else:
             scripts = [tuple(rng.choice(_OUT) for _ in range(n + 2)) for _ in range(3000 if full else 250)]
@@ -301,7 +302,7 @@ def gen(ctx):
             scripts += [tuple(rng.choice(['listed', 'exc-listed', 'exc-sub']) for _ in range(n + 1)) + (rng.choice(_OUT),)
                         for _ in range(1500 if full else 150)]
         for script in scripts:
-            reps = 8 if full else 2
+            reps = (12 if n <= 2 else 3) if deep else (4 if n <= 2 else 1)
             for _ in range(reps):
                 k += 1
                 spec = grid[(k * 7) % len(grid)]
